@@ -12,6 +12,7 @@
 (*              err: only if the connection failed / the writer is shut;           *)
 (*              timeout / cancelled: the caller gave up (its entry is removed);    *)
 (*              "hung" matches nothing: a call that does not return is rejected    *)
+(*   dupreg     a forward_message reused the id of a call in flight: refused       *)
 (*   note(f)    a notify frame reached the subscriber (never a caller)             *)
 (*   after      all done: the pending map must be empty; after a failure the       *)
 (*              subscriber stream must have ended (ws)                             *)
@@ -70,6 +71,10 @@ TRet == /\ l <= Len(Rec) /\ E.ev = "ret" /\ pc[E.c] \in {"registered", "waiting"
              [] OTHER -> FALSE                                  \* "hung"
         /\ Finish(E.c)
         /\ Keep /\ UNCHANGED <<cid, s2c, cur, writerShut, reader, notes, subEnded, used>> /\ l' = l + 1
+\* a caller-supplied id (forward_message) equal to an id in flight: the registration is refused and nothing changes
+\* (ClientMux!DistinctIds: ids issued on one connection are distinct)
+TDupReg == /\ l <= Len(Rec) /\ E.ev = "dupreg" /\ E.id \in pending /\ E.cls = "err"
+           /\ UNCHANGED <<nextId, pending, pc, cid, chan, result, c2s, s2c, seen, answered, junk, cur, writerShut, reader, notes, subEnded, used>> /\ l' = l + 1
 TNote == /\ l <= Len(Rec) /\ E.ev = "note"
          /\ notes # <<>> /\ Head(notes).id = E.id /\ Head(notes).tag = E.tag /\ notes' = Tail(notes)
          /\ Keep /\ UNCHANGED <<pending, pc, cid, chan, s2c, cur, writerShut, reader, subEnded, used>> /\ l' = l + 1
@@ -85,7 +90,7 @@ TAfter == /\ l <= Len(Rec) /\ E.ev = "after"
 
 \* silent reader steps (ClientMux's own actions)
 Silent == (M!Recv \/ M!Dispatch \/ M!Fail1 \/ M!Fail2) /\ UNCHANGED <<used, l>>
-Next == TReset \/ TStart \/ TSent \/ TSrv \/ TRet \/ TNote \/ TSubEnd \/ TAfter \/ Silent
+Next == TReset \/ TStart \/ TSent \/ TSrv \/ TRet \/ TDupReg \/ TNote \/ TSubEnd \/ TAfter \/ Silent
 Spec == Init /\ [][Next]_tvars
 
 NoResidue == M!NoResidue
